@@ -9,7 +9,7 @@
 //   - a generic JSON tree printer (with seeded layout variants) and parser.
 //
 // Abstract leaves (all strings):
-//   "s0" empty string, "sN" N-th pool string, "=text" the literal text
+//   "s0" empty string, "sN" N-th pool string (s1..s6 XML-representable, s7..s11 JSON-only), "=text" the literal text
 //   "i0" 0, "iN" N-th integer of the seed's magnitude profile, "#n" the literal integer n
 //   "f0" 0.0, "fN" N-th pool float        "b0" / "b1" false / true
 //   "t0" zero time, "tN" N-th pool time   ("D:tN" in XML trees: the same instant in the notes date layout)
@@ -47,6 +47,17 @@ var basePool = []string{
 
 const nStr, nInt, nFloat = 6, 9, 8
 
+// jsonOnlyPool: strings that JSON can carry (as \uXXXX escapes or raw) but XML 1.0 cannot: ASCII control characters
+// other than \b \f \n \r \t, DEL, and an unprintable code point above U+FFFF.  They are the symbols s7.. and are
+// used by the C05 value space only; the XML value spaces (C03, C04) never mention them.
+var jsonOnlyPool = []string{
+	"a\u0001b",
+	"bell\u0007!",
+	"vt\u000b\u001f.",
+	"del\u007f",
+	"lang\U000E0001tag",
+}
+
 // NewSymbols derives the tables from the seed: the string pool is permuted, the
 // integer magnitudes follow one of three profiles (small / around 2^31 / around 2^60).
 func NewSymbols(seed int64) *Symbols {
@@ -56,6 +67,10 @@ func NewSymbols(seed int64) *Symbols {
 	s.strs = []string{""}
 	for i := 0; i < nStr; i++ {
 		s.strs = append(s.strs, basePool[perm[i]])
+	}
+	jp := r.Perm(len(jsonOnlyPool))
+	for _, k := range jp {
+		s.strs = append(s.strs, jsonOnlyPool[k])
 	}
 	for i, v := range s.strs {
 		s.strIdx[v] = i
